@@ -482,11 +482,11 @@ Qed.
 
 (* ---- a literal of a datatype the library does not convert *)
 Theorem xrt_foreign : forall fl c m scope a lex d, is_qname_attr a = false -> is_time_attr a = false ->
-  intl_string d = false -> String.eqb (qn_uri d) (xsd_uri ++ "QName") = false ->
+  String.eqb (qn_uri d) (xsd_uri ++ "QName") = false ->
   scoped scope d -> Bound m d -> parse_xsd (cft c) lex d = CKeep ->
   xrt fl c m scope a (VLit lex (Some d) None).
 Proof.
-  intros fl c m scope a lex d Q T NI NQ S Bd K. unfold xrt, xml_emit. norm_always. cbn [prov_str]. rewrite Q, NI.
+  intros fl c m scope a lex d Q T NQ S Bd K. unfold xrt, xml_emit. norm_always. cbn [prov_str]. rewrite Q, (andb_false_r (intl_string d)).
   cbn [andb negb]. rewrite !andb_false_r. cbn [andb].
   eexists. split; [|split].
   - unfold extract_value. cbn [xo_attrs xo_text x_text x_type x_lang x_ref app fold_left].
@@ -505,7 +505,7 @@ Definition xvalue_ok (c : actx) (m : nsm) (scope : list (string * string)) (v : 
   | VFloat r iv g => lookup r (cft c) = Some (Some (r, iv, g))
   | VLit lex d (Some (String _ _)) => d = Some (prov_qn "InternationalizedString")
   | VLit lex (Some d) None =>
-      intl_string d = false /\ String.eqb (qn_uri d) (xsd_uri ++ "QName") = false /\ scoped scope d /\ Bound m d
+      String.eqb (qn_uri d) (xsd_uri ++ "QName") = false /\ scoped scope d /\ Bound m d
   | VLit _ _ _ => False
   | _ => True
   end.
@@ -525,7 +525,7 @@ Proof.
   - destruct lg as [[|ch l]|].
     + destruct d; destruct O.
     + destruct d as [d|]; cbn in O; [|discriminate O]. inversion O; subst d. apply xrt_lang; assumption.
-    + destruct d as [d|]; [|destruct O]. destruct O as [NI [NQ [Sc Bd]]]. cbn [stored] in S.
+    + destruct d as [d|]; [|destruct O]. destruct O as [NQ [Sc Bd]]. cbn [stored] in S.
       apply xrt_foreign; assumption.
 Qed.
 
